@@ -1,16 +1,18 @@
 #!/usr/bin/env python3
 """Behaviour-preserving refactorings (produced by fresh agents) must keep the checks silent.
-usage: reftest.py <base-commit> <dir>...   (dir = /tmp/seed/ref_Cxx)   → prints SILENT / ALARM per patch"""
+usage: reftest.py [<base-commit> <dir>...]   (default: every /verif/refactors/Cxx-rN, base 3a35781)   → prints SILENT / ALARM per patch"""
 import json, os, subprocess, sys, glob, tempfile, shutil
 ROOT = os.path.dirname(os.path.dirname(os.path.abspath(__file__)))
 SCR = "/tmp/mrepo"
 def sh(c): return subprocess.run(c, shell=True, capture_output=True, text=True)
-base = sys.argv[1]
+base = sys.argv[1] if len(sys.argv) > 1 else "3a35781"
+dirs = sys.argv[2:] or sorted(glob.glob(ROOT + "/refactors/*"))
 sh("git -C /repo worktree prune; [ -d %s ] || git -C /repo worktree add -q --detach %s HEAD" % (SCR, SCR))
 bad = 0
-for d in sys.argv[2:]:
-    prop = os.path.basename(d.rstrip("/")).split("_")[1]
-    for pd in sorted(glob.glob(d + "/*/patch.diff")):
+for d in dirs:
+    bn = os.path.basename(d.rstrip("/"))
+    prop = bn.split("_")[1] if "_" in bn else bn.split("-")[0]
+    for pd in sorted(glob.glob(d + "/*/patch.diff") + glob.glob(d + "/patch.diff")):
         # prefer the current tree (later repairs included); fall back to the commit the patch was made on
         sh("git -C %s checkout -q --detach $(git -C /repo rev-parse HEAD) && git -C %s checkout -q -- . && git -C %s clean -fdq" % (SCR, SCR, SCR))
         a = sh("git -C %s apply %s" % (SCR, pd))
@@ -18,12 +20,12 @@ for d in sys.argv[2:]:
             sh("git -C %s checkout -q --detach %s && git -C %s checkout -q -- . && git -C %s clean -fdq" % (SCR, base, SCR, SCR))
             a = sh("git -C %s apply %s" % (SCR, pd))
         if a.returncode:
-            print("%-22s APPLY-FAILED %s" % (pd[len("/tmp/seed/"):-len("/patch.diff")], a.stderr.strip()[:100])); continue
+            print("%-22s APPLY-FAILED %s" % (os.path.relpath(os.path.dirname(pd), os.path.dirname(os.path.dirname(d.rstrip("/"))) if "_" in bn else os.path.dirname(d.rstrip("/"))), a.stderr.strip()[:100])); continue
         v = tempfile.mkdtemp(prefix="refv"); os.makedirs(v + "/evidence"); shutil.copy(ROOT + "/known_findings.json", v)
         r = sh("%s/bin/origamilint -prop %s -tier quick -repo %s -verif %s" % (ROOT, prop, SCR, v))
         out = r.stdout + r.stderr
         lines = [l.strip()[:230] for l in out.splitlines() if ("rule=" in l and "KNOWN-FINDING" not in l and "NOTE" not in l) or "CHECKER-ERROR" in l]
-        print("%-22s %s" % (pd[len("/tmp/seed/"):-len("/patch.diff")], "SILENT" if r.returncode == 0 else "ALARM rc=%d" % r.returncode))
+        print("%-22s %s" % (os.path.relpath(os.path.dirname(pd), os.path.dirname(os.path.dirname(d.rstrip("/"))) if "_" in bn else os.path.dirname(d.rstrip("/"))), "SILENT" if r.returncode == 0 else "ALARM rc=%d" % r.returncode))
         for l in lines[:6]: print("      " + l)
         if r.returncode: bad += 1
         shutil.rmtree(v)
